@@ -238,6 +238,13 @@ def match_known(known, facts):
     return None
 
 
+class _KeySet(set):
+    """Set of keys that keeps only a 64-bit hash of each (the keys are long JSON strings, hundreds of thousands per run)."""
+
+    def add(self, key):
+        super().add(hash(key))
+
+
 class Check:
     def __init__(self, prop, tier, seed):
         self.prop, self.tier, self.seed = prop, tier, seed
@@ -248,7 +255,7 @@ class Check:
         self.violations = []   # (facts, replay_path)
         self.known_hits = {}
         self.notes = []
-        self.distinct = set()
+        self.distinct = _KeySet()
         self.known = load_known(prop)
         self.level = "model_checking"
         self.parts = {}
